@@ -33,7 +33,10 @@ THEOREMS = [P + t for t in (
 THEOREMS += ["TLX.Props.C02Capstone." + t for t in (
     "quic_one_rtt_connection_exact", "quic_connection_exact_partial", "datagram_step", "feedAll_exact", "step_one_rtt_nc",
     "genKeys_eq_rfc", "keysWf_rfc", "devQuic_rfc", "first_initial_rfc", "hello_establishes", "hello_establishes_rfc",
-    "crypto_not_exported", "est_keylog_irrelevant")]
+    "crypto_not_exported", "est_keylog_irrelevant",
+    "quic_handshake_establishes", "quic_connection_exact", "step_long_eq", "afterTls_hs", "handleCrypto_hs",
+    "handleFrames_hs", "hs_packet_step", "hs_turn", "hs_loop", "hs_feed_step", "hs_feed_rest", "est_of_hsSt",
+    "feedPre_fresh", "feedPre_hs", "longOf_toPkt", "ExHs.ptrace_ex", "ExHs.fired_ex")]
 POINT = "run(): whole QUIC export, real tool vs TLX.QuicPipeline (toy AEAD + toy hp mask, real key schedule)"
 
 
